@@ -101,6 +101,7 @@ def catalogue():
     C["catch_act"] = (wf("m", [step("s1", [irq("a1", catches=[catch([step("cs1", [irq("ca1")])], on="e1")]), irq("a2")]), step("s2", [irq("a3")])]), {})
     C["catch_step"] = (wf("m", [step("s1", [irq("a1")], catches=[catch([step("cs1", [irq("ca1")])])]), step("s2", [irq("a3")])]), {})
     C["catch_empty"] = (wf("m", [step("s1", [irq("a1", catches=[catch([], on="e1")])]), step("s2", [irq("a3")])]), {})
+    C["outs_act"] = (wf("m", [step("s1", [irq("a1", outputs={"r": None}), irq("a2")]), step("s2", [irq("a3", outputs={"q": None, "r": None})])], outputs={"r": None}), {})
     C["msg_set"] = (wf("m", [step("s1", [msg("m1"), setv("v1", {"x": 5}), irq("a1")])], outputs={"x": None}), {})
     C["nested"] = (wf("m", [step("s1", branches=[
         branch("b1", [step("s11", branches=[
